@@ -30,6 +30,8 @@ package sender
 //@ nopanic C13
 //@ ensures result1 == (result0 != nil)
 //@ ensures result0 != nil ==> result0.Type == "http" || result0.Type == "poll"
+// an http(s) address is handed on exactly as the URL reads (url.String of the parsed address, nothing redacted or rewritten)
+//@ ensures result0 != nil && result0.Type == "http" ==> result0.Data == jsonmap1("url", urlstring(v))
 
 // The target table: after a configured target has been processed, its name resolves to exactly that
 // target (the last definition of a name wins); the built-in default is only added when no target is
